@@ -59,6 +59,22 @@ pub fn collect(file: &str, f: &syn::File, out: &mut Vec<FnDef>) {
                     }
                 }
             }
+            Item::Macro(m) => {
+                if let (Some(id), Some(body)) = (&m.ident, crate::last_brace_group(m.mac.tokens.clone())) {
+                    let wrapped: proc_macro2::TokenStream = format!("impl X {{ {} }}", body).parse().unwrap_or_default();
+                    if let Ok(im) = syn::parse2::<syn::ItemImpl>(wrapped) {
+                        for it in &im.items {
+                            if let ImplItem::Fn(x) = it {
+                                if is_cfg_verif(&x.attrs) {
+                                    continue;
+                                }
+                                let exported = !matches!(x.vis, syn::Visibility::Inherited);
+                                out.push(mk(&stem, &id.to_string(), "", &x.sig, exported, &x.block));
+                            }
+                        }
+                    }
+                }
+            }
             _ => {}
         }
     }
@@ -95,6 +111,8 @@ fn mk(stem: &str, ty: &str, tr: &str, sig: &syn::Signature, exported: bool, bloc
 
 #[derive(Clone, PartialEq, Eq, PartialOrd, Ord, Debug)]
 enum Shape {
+    /// the guard of the channel's internal lock (lock-discipline mode)
+    Guard,
     Unknown,
     Bool(bool),
     Ctor(String, Vec<Val>),
@@ -177,7 +195,19 @@ pub struct Graph {
 
 const END: usize = 0;
 
+#[derive(Clone, Copy, PartialEq)]
+pub enum AMode {
+    /// signal.rs / mutex.rs / backoff.rs: the hand-off and lock protocols
+    Protocol,
+    /// lib.rs / future.rs / internal.rs: acquisition and release of the channel lock, uses of the protected
+    /// data, waits
+    Lock,
+}
+
 struct B<'a> {
+    mode: AMode,
+    /// lock-discipline mode: the functions that take the lock directly (name -> blocking?)
+    prims: BTreeMap<String, bool>,
     fns: &'a [FnDef],
     g: Graph,
     closures: Vec<(Vec<String>, Expr, Env, String, String)>,
@@ -307,6 +337,73 @@ impl<'a> B<'a> {
         cands.into_iter().find(|f| f.ty.is_empty())
     }
 
+    // ---------------------------------------------------------------- lock-discipline mode helpers
+    fn has_guard(v: &Val) -> bool {
+        match &v.shape {
+            Shape::Guard => true,
+            Shape::Ctor(_, a) => a.iter().any(Self::has_guard),
+            _ => false,
+        }
+    }
+    /// a use of the protected data (consecutive uses are one event)
+    fn cs(&mut self, p: &Path) -> Path {
+        if p.env.get("<last>").map(|v| v.text == "cs").unwrap_or(false) {
+            return p.clone();
+        }
+        let mut q = self.step(p, "cs");
+        q.env.insert("<last>".into(), Val::pure("cs"));
+        q
+    }
+    fn ev(&mut self, p: &Path, label: &str) -> Path {
+        let mut q = self.step(p, label);
+        q.env.remove("<last>");
+        q
+    }
+    /// bindings that go out of scope: a guard among them is released there
+    fn leave(&mut self, q: Path, outer: &BTreeSet<String>) -> Path {
+        self.leave_v(q, outer, false)
+    }
+    /// `moved_out`: the value of the scope carries the guard away (it is not released here)
+    fn leave_v(&mut self, mut q: Path, outer: &BTreeSet<String>, moved_out: bool) -> Path {
+        if self.mode == AMode::Lock && !moved_out {
+            let gone: Vec<String> = q.env.iter().filter(|(k, v)| !outer.contains(*k) && k.as_str() != "<last>" && Self::has_guard(v)).map(|(k, _)| k.clone()).collect();
+            for _ in gone {
+                q = self.ev(&q, "release");
+            }
+        }
+        let keep_last = q.env.get("<last>").cloned();
+        q.env.retain(|k, _| outer.contains(k));
+        if let Some(l) = keep_last {
+            q.env.insert("<last>".into(), l);
+        }
+        q
+    }
+    fn release_all(&mut self, mut q: Path) -> Path {
+        if self.mode == AMode::Lock {
+            let n = q.env.iter().filter(|(k, v)| k.as_str() != "<last>" && Self::has_guard(v)).count();
+            for _ in 0..n {
+                q = self.ev(&q, "release");
+            }
+            q.env.retain(|_, v| !Self::has_guard(v));
+        }
+        q
+    }
+    /// arguments that are plain locals holding a guard: moved into the callee
+    fn moved_guards(args: &syn::punctuated::Punctuated<Expr, syn::token::Comma>, env: &Env) -> Vec<String> {
+        let mut out = vec![];
+        for a in args {
+            if let Expr::Path(p) = a {
+                if p.path.segments.len() == 1 {
+                    let n = p.path.segments[0].ident.to_string();
+                    if env.get(&n).map(Self::has_guard).unwrap_or(false) {
+                        out.push(n);
+                    }
+                }
+            }
+        }
+        out
+    }
+
     // ---------------------------------------------------------------- blocks and statements
     fn block(&mut self, b: &Block, p: Path) -> Out {
         let mut out = Out::default();
@@ -347,7 +444,7 @@ impl<'a> B<'a> {
                         let mut res = Out::default();
                         res.absorb_control(&mut o);
                         for (mut p, v) in o.normal {
-                            let mutable = matches!(&l.pat, Pat::Ident(i) if i.mutability.is_some());
+                            let mutable = matches!(&l.pat, Pat::Ident(i) if i.mutability.is_some()) && !Self::has_guard(&v);
                             if mutable {
                                 if let Pat::Ident(i) = &l.pat {
                                     p.env.insert(i.ident.to_string(), Val::pure("<counter>"));
@@ -398,7 +495,7 @@ impl<'a> B<'a> {
     fn bind(&mut self, pat: &Pat, v: &Val, env: &mut Env) {
         match pat {
             Pat::Ident(i) => {
-                if i.mutability.is_some() {
+                if i.mutability.is_some() && !Self::has_guard(v) {
                     env.insert(i.ident.to_string(), Val::pure("<counter>"));
                 } else {
                     env.insert(i.ident.to_string(), v.clone());
@@ -601,7 +698,7 @@ impl<'a> B<'a> {
             let (t, f) = self.fork(p, &inner, labelled);
             return (f, t);
         }
-        if labelled {
+        if labelled && self.mode == AMode::Protocol {
             (self.step(p, &format!("if[{}]=T", text)), self.step(p, &format!("if[{}]=F", text)))
         } else {
             (self.tau(p), self.tau(p))
@@ -681,10 +778,21 @@ impl<'a> B<'a> {
             Expr::Field(f) => {
                 let mut o = self.eval(&f.base, p);
                 let m = toks(&f.member);
-                for (_, v) in o.normal.iter_mut() {
-                    *v = Val { text: format!("{}.{}", v.text, m), shape: Shape::Unknown, proto: v.proto };
+                let mut res = Out::default();
+                res.absorb_control(&mut o);
+                for (q, v) in o.normal {
+                    if self.mode == AMode::Lock && v.shape == Shape::Guard {
+                        let mut q2 = self.cs(&q);
+                        if !matches!(&*f.base, Expr::Path(_)) {
+                            // the guard is a temporary: it ends with the expression
+                            q2 = self.ev(&q2, "release");
+                        }
+                        res.normal.push((q2, Val::pure(&format!("<locked>.{}", m))));
+                    } else {
+                        res.normal.push((q, Val { text: format!("{}.{}", v.text, m), shape: Shape::Unknown, proto: v.proto }));
+                    }
                 }
-                o
+                res
             }
             Expr::Binary(b) => self.binary(b, p),
             Expr::Assign(a) => {
@@ -692,12 +800,25 @@ impl<'a> B<'a> {
                 let rs = self.eval_seq(&[&a.right, &a.left], p, &mut ctl);
                 for (p, vs) in rs {
                     let lhs = &vs[1];
-                    if lhs.text.starts_with("self") {
+                    if self.mode == AMode::Protocol && lhs.text.starts_with("self") {
                         // a write to the signal's own memory (waker cell, slot pointer)
                         let lbl = format!("write[{}]", lhs.text);
                         let p2 = self.step(&p, &lbl);
                         ctl.normal.push((p2, Val::unit()));
                     } else {
+                        let mut p = p;
+                        if self.mode == AMode::Lock && Self::has_guard(&vs[0]) {
+                            // a guard assigned to an existing local (the previous one, if any, ends here)
+                            if let Expr::Path(lp) = &*a.left {
+                                if lp.path.segments.len() == 1 {
+                                    let n = lp.path.segments[0].ident.to_string();
+                                    if p.env.get(&n).map(Self::has_guard).unwrap_or(false) {
+                                        p = self.ev(&p, "release");
+                                    }
+                                    p.env.insert(n, vs[0].clone());
+                                }
+                            }
+                        }
                         ctl.normal.push((p, Val::unit()));
                     }
                 }
@@ -712,13 +833,12 @@ impl<'a> B<'a> {
                     if t {
                         let mut o = self.block(&i.then_branch, cp);
                         ctl.absorb_control(&mut o);
-                        for (mut q, v) in o.normal {
-                            q.env.retain(|k, _| outer.contains(k));
+                        for (q, v) in o.normal {
+                            let q = self.leave_v(q, &outer, Self::has_guard(&v));
                             ctl.normal.push((q, v));
                         }
                     } else {
-                        let mut cp = cp;
-                        cp.env.retain(|k, _| outer.contains(k));
+                        let cp = self.leave(cp, &outer);
                         match &i.else_branch {
                             Some((_, eb)) => {
                                 let mut o = self.eval(eb, cp);
@@ -750,8 +870,8 @@ impl<'a> B<'a> {
                                 self.bind(&arm.pat, &v, &mut q.env);
                                 let mut ao = self.eval(&arm.body, q);
                                 ctl.absorb_control(&mut ao);
-                                for (mut r, rv) in ao.normal {
-                                    r.env.retain(|k, _| outer.contains(k));
+                                for (r, rv) in ao.normal {
+                                    let r = self.leave_v(r, &outer, Self::has_guard(&rv));
                                     ctl.normal.push((r, rv));
                                 }
                                 decided = true;
@@ -759,7 +879,7 @@ impl<'a> B<'a> {
                             }
                             None => {
                                 let txt = format!("{}~{}", v.text, self.pat_text(&arm.pat));
-                                let mut q = if v.proto || v.text.starts_with("self") {
+                                let mut q = if self.mode == AMode::Protocol && (v.proto || v.text.starts_with("self")) {
                                     self.step(&sp, &format!("match[{}]", txt))
                                 } else {
                                     self.tau(&sp)
@@ -767,8 +887,8 @@ impl<'a> B<'a> {
                                 self.bind(&arm.pat, &v, &mut q.env);
                                 let mut ao = self.eval(&arm.body, q);
                                 ctl.absorb_control(&mut ao);
-                                for (mut r, rv) in ao.normal {
-                                    r.env.retain(|k, _| outer.contains(k));
+                                for (r, rv) in ao.normal {
+                                    let r = self.leave_v(r, &outer, Self::has_guard(&rv));
                                     ctl.normal.push((r, rv));
                                 }
                             }
@@ -785,13 +905,15 @@ impl<'a> B<'a> {
                 let hp = Path { node: h, env: p.env.clone() };
                 let mut o = self.block(&l.body, hp);
                 let mut res = Out::default();
-                for (q, _) in o.normal.drain(..) {
+                let outer: BTreeSet<String> = p.env.keys().cloned().collect();
+                let back: Vec<Path> = o.normal.drain(..).map(|x| x.0).chain(o.cont.drain(..)).collect();
+                for q in back {
+                    let q = self.leave(q, &outer);
                     self.edge(q.node, None, h);
                 }
-                for q in o.cont.drain(..) {
-                    self.edge(q.node, None, h);
-                }
-                for q in o.brk.drain(..) {
+                let brks: Vec<Path> = o.brk.drain(..).collect();
+                for q in brks {
+                    let q = self.leave(q, &outer);
                     res.normal.push((Path { node: q.node, env: p.env.clone() }, Val::unit()));
                 }
                 res.ret.append(&mut o.ret);
@@ -861,11 +983,15 @@ impl<'a> B<'a> {
                     let mut res = Out::default();
                     res.absorb_control(&mut o);
                     for (q, v) in o.normal {
+                        let q = self.release_all(q);
                         res.ret.push((q.node, v));
                     }
                     res
                 }
-                None => Out { ret: vec![(p.node, Val::unit())], ..Default::default() },
+                None => {
+                    let q = self.release_all(p);
+                    Out { ret: vec![(q.node, Val::unit())], ..Default::default() }
+                }
             },
             Expr::Break(_) => Out { brk: vec![p], ..Default::default() },
             Expr::Continue(_) => Out { cont: vec![p], ..Default::default() },
@@ -929,8 +1055,10 @@ impl<'a> B<'a> {
     fn scoped_block(&mut self, b: &Block, p: Path) -> Out {
         let outer: BTreeSet<String> = p.env.keys().cloned().collect();
         let mut o = self.block(b, p);
-        for (q, _) in o.normal.iter_mut() {
-            q.env.retain(|k, _| outer.contains(k));
+        let exits: Vec<(Path, Val)> = o.normal.drain(..).collect();
+        for (q, v) in exits {
+            let q = self.leave_v(q, &outer, Self::has_guard(&v));
+            o.normal.push((q, v));
         }
         o.normal = self.join(std::mem::take(&mut o.normal));
         o
@@ -952,7 +1080,8 @@ impl<'a> B<'a> {
             AddAssign(_) | SubAssign(_) | MulAssign(_) | DivAssign(_) | RemAssign(_) | BitXorAssign(_) | BitAndAssign(_)
             | BitOrAssign(_) | ShlAssign(_) | ShrAssign(_) => {
                 let mut ctl = Out::default();
-                for (q, _) in self.eval_seq(&[&b.right], p, &mut ctl) {
+                let es: Vec<&Expr> = if self.mode == AMode::Lock { vec![&*b.right, &*b.left] } else { vec![&*b.right] };
+                for (q, _) in self.eval_seq(&es, p, &mut ctl) {
                     ctl.normal.push((q, Val::unit()));
                 }
                 ctl
@@ -1017,6 +1146,59 @@ impl<'a> B<'a> {
         for (q, vs) in rs {
             let rv = &vs[0];
             let args = &vs[1..];
+            if self.mode == AMode::Lock {
+                let moved = Self::moved_guards(&m.args, &q.env);
+                let mut q = q.clone();
+                if rv.shape == Shape::Guard {
+                    // a use of the protected data through the guard; a guard that is a temporary ends with it
+                    q = self.cs(&q);
+                    if !matches!(&*m.receiver, Expr::Path(_)) {
+                        q = self.ev(&q, "release");
+                    }
+                    ctl.normal.push((q, Val::pure(&format!("<locked>.{}()", name))));
+                    continue;
+                }
+                if rv.text.starts_with("<locked>") {
+                    ctl.normal.push((q, Val::pure(&format!("{}.{}()", rv.text, name))));
+                    continue;
+                }
+                if matches!(name.as_str(), "wait" | "wait_timeout" | "async_blocking_wait") && !rv.text.starts_with("self.internal") {
+                    let q2 = self.ev(&q, "wait");
+                    ctl.normal.push((q2, Val::proto("wait")));
+                    continue;
+                }
+                match (name.as_str(), &rv.shape) {
+                    ("is_some", Shape::Ctor(c, _)) => {
+                        ctl.normal.push((q, Val::boolean(c == "Some")));
+                        continue;
+                    }
+                    ("is_none", Shape::Ctor(c, _)) => {
+                        ctl.normal.push((q, Val::boolean(c == "None")));
+                        continue;
+                    }
+                    ("unwrap" | "expect", Shape::Ctor(c, a)) if (c == "Some" || c == "Ok") && a.len() == 1 => {
+                        ctl.normal.push((q, a[0].clone()));
+                        continue;
+                    }
+                    _ => {}
+                }
+                let on_self = rv.text == "self" || rv.text == "this" || rv.text.starts_with("self.get_unchecked_mut")
+                    || rv.text.starts_with("self.as_mut") || rv.text.starts_with("self.get_mut");
+                if on_self {
+                    if let Some(f) = self.find_fn(None, &name, true) {
+                        for g in &moved {
+                            q.env.remove(g);
+                        }
+                        let mut o = self.inline(f, args.to_vec(), q.clone());
+                        ctl.absorb_control(&mut o);
+                        ctl.normal.append(&mut o.normal);
+                        continue;
+                    }
+                }
+                let pr = rv.proto || args.iter().any(|a| a.proto);
+                ctl.normal.push((q, Val { text: format!("{}.{}(..)", rv.text, name), shape: Shape::Unknown, proto: pr }));
+                continue;
+            }
             let field = rv.text.rsplit('.').next().unwrap_or("").to_string();
             let on_protocol_word = rv.text.starts_with("self.") && (field == "state" || field == "locked");
             if on_protocol_word && ATOMIC_METHODS.contains(&name.as_str()) {
@@ -1167,6 +1349,74 @@ impl<'a> B<'a> {
         let es: Vec<&Expr> = c.args.iter().filter(|a| ordering_of(a).is_none()).collect();
         let rs = self.eval_seq(&es, p, &mut ctl);
         for (q, vs) in rs {
+            if self.mode == AMode::Lock {
+                if let Some(blocking) = self.prims.get(&fname).cloned() {
+                    if blocking {
+                        let q2 = self.ev(&q, "acquire");
+                        ctl.normal.push((q2, Val { text: "<guard>".into(), shape: Shape::Guard, proto: false }));
+                    } else {
+                        let g = Val { text: "<guard>".into(), shape: Shape::Guard, proto: false };
+                        let q1 = self.ev(&q, "try_acquire=some");
+                        ctl.normal.push((q1, Val::ctor("Some", vec![g])));
+                        let q2 = self.ev(&q, "try_acquire=none");
+                        ctl.normal.push((q2, Val::ctor("None", vec![])));
+                    }
+                    continue;
+                }
+                let moved = Self::moved_guards(&c.args, &q.env);
+                if fname == "drop" && !full.contains("::") {
+                    let mut q2 = q.clone();
+                    if vs.iter().any(Self::has_guard) {
+                        q2 = self.ev(&q2, "release");
+                        for g in &moved {
+                            q2.env.remove(g);
+                        }
+                    }
+                    ctl.normal.push((q2, Val::unit()));
+                    continue;
+                }
+                match fname.as_str() {
+                    "Some" | "Ok" | "Err" | "Ready" => {
+                        ctl.normal.push((q, Val::ctor(&fname, vs.clone())));
+                        continue;
+                    }
+                    _ => {}
+                }
+                let segs: Vec<&str> = full.split("::").collect();
+                let ty = if segs.len() >= 2 {
+                    let t = segs[segs.len() - 2];
+                    if t == "Self" {
+                        self.cur_ty.last().cloned()
+                    } else if t.chars().next().map(|c| c.is_uppercase()).unwrap_or(false) {
+                        Some(t.to_string())
+                    } else {
+                        None
+                    }
+                } else {
+                    None
+                };
+                let target = match &ty {
+                    Some(t) => self.find_fn(Some(t), &fname, false),
+                    None => self.fns.iter().find(|f| f.name == fname && f.ty.is_empty()),
+                };
+                if let Some(f) = target {
+                    let mut q2 = q.clone();
+                    for g in &moved {
+                        q2.env.remove(g);
+                    }
+                    let mut args = vs.clone();
+                    if f.has_self && !args.is_empty() {
+                        args.remove(0);
+                    }
+                    let mut o = self.inline(f, args, q2);
+                    ctl.absorb_control(&mut o);
+                    ctl.normal.append(&mut o.normal);
+                    continue;
+                }
+                let pr = vs.iter().any(|a| a.proto);
+                ctl.normal.push((q, Val { text: format!("{}(..)", full), shape: Shape::Unknown, proto: pr }));
+                continue;
+            }
             match fname.as_str() {
                 "fence" | "compiler_fence" => {
                     let n1 = self.node();
@@ -1302,11 +1552,22 @@ impl<'a> B<'a> {
         self.cur_ty.pop();
         self.cur_file.pop();
         let mut res = Out::default();
-        for (q, v) in o.normal.drain(..) {
-            res.normal.push((Path { node: q.node, env: p.env.clone() }, v));
+        let exits: Vec<(Path, Val)> = o.normal.drain(..).collect();
+        for (q, v) in exits {
+            // a guard returned by the callee stays with the value; the others end with the callee's frame
+            let q = if Self::has_guard(&v) { q } else { self.release_all(q) };
+            let mut env = p.env.clone();
+            if let Some(l) = q.env.get("<last>") {
+                env.insert("<last>".into(), l.clone());
+            } else {
+                env.remove("<last>");
+            }
+            res.normal.push((Path { node: q.node, env }, v));
         }
         for (n, v) in o.ret.drain(..) {
-            res.normal.push((Path { node: n, env: p.env.clone() }, v));
+            let mut env = p.env.clone();
+            env.remove("<last>");
+            res.normal.push((Path { node: n, env }, v));
         }
         res.normal = self.join(std::mem::take(&mut res.normal));
         res
@@ -1470,8 +1731,28 @@ pub fn meet(a: &str, b: &str) -> String {
 }
 
 /// the canonical automaton of one entry function
+/// the functions that take the channel lock directly: a body that calls `.lock()` (blocking) or `.try_lock()`
+pub fn lock_prims(fns: &[FnDef]) -> BTreeMap<String, bool> {
+    let mut m = BTreeMap::new();
+    for f in fns {
+        let t = toks(&f.block);
+        if t.contains(". try_lock ()") {
+            m.insert(f.name.clone(), false);
+        } else if t.contains(". lock ()") {
+            m.insert(f.name.clone(), true);
+        }
+    }
+    m
+}
+
 pub fn automaton(fns: &[FnDef], f: &FnDef) -> Canon {
+    automaton_mode(fns, f, AMode::Protocol, &BTreeMap::new())
+}
+
+pub fn automaton_mode(fns: &[FnDef], f: &FnDef, mode: AMode, prims: &BTreeMap<String, bool>) -> Canon {
     let mut b = B {
+        mode,
+        prims: prims.clone(),
         fns,
         g: Graph { n: 1, edges: vec![], sites: HashMap::new() },
         closures: vec![],
@@ -1488,11 +1769,13 @@ pub fn automaton(fns: &[FnDef], f: &FnDef) -> Canon {
     }
     let mut o = b.block(&f.block, Path { node: start, env });
     let mut rets: Vec<(usize, Val)> = o.ret.drain(..).collect();
-    for (q, v) in o.normal.drain(..) {
+    let exits: Vec<(Path, Val)> = o.normal.drain(..).collect();
+    for (q, v) in exits {
+        let q = b.release_all(q);
         rets.push((q.node, v));
     }
     for (n, v) in rets {
-        let t = match &v.shape {
+        let t = if mode == AMode::Lock { String::new() } else { match &v.shape {
             Shape::Bool(x) => x.to_string(),
             _ => {
                 if v.proto || matches!(v.shape, Shape::Ctor(..)) {
@@ -1501,14 +1784,16 @@ pub fn automaton(fns: &[FnDef], f: &FnDef) -> Canon {
                     String::new()
                 }
             }
-        };
+        } };
         b.edge(n, Some(format!("ret[{}]", t)), END);
     }
     let (lines, roles) = canon(&b.g, start);
-    let has = lines.iter().any(|l| {
+    let has = if mode == AMode::Lock {
+        lines.iter().any(|l| l.contains("acquire"))
+    } else { lines.iter().any(|l| {
         let lbl = l.split(" -- ").nth(1).unwrap_or("");
         !(lbl.starts_with("ret[") || lbl.starts_with("pause") || lbl.starts_with("if[") || lbl.starts_with("unreachable") || lbl.starts_with("panic"))
-    });
+    }) };
     Canon { lines, roles, has_protocol_event: has, unsupported: b.unsupported }
 }
 
